@@ -146,3 +146,13 @@ extern "C" {
 pub fn slots_all_empty() -> bool {
     unsafe { verif_slots_all_empty() }
 }
+
+extern "C" {
+    /// Run `f`, catching a panic that unwinds out of it. Returns true iff it panicked. IR build:
+    /// the engine stops the unwinding at this frame; native build: `catch_unwind`.
+    pub fn verif_try(f: extern "C-unwind" fn()) -> bool;
+}
+#[inline(always)]
+pub fn try_(f: extern "C-unwind" fn()) -> bool {
+    unsafe { verif_try(f) }
+}
